@@ -2,9 +2,14 @@
    Property theorems only; proofs live in proofs/ClaimsProofs.v.  The model (model/Claims.v) is the
    declaration layer of workflow.py: declare_static_files, register_static_tree, register_nglob,
    define_step, amend_step, one request per director transaction; `gm` is the abstract glob
-   matcher (pattern -> path -> bool), arbitrary in every theorem. *)
-From Coq Require Import List NArith Bool.
+   matcher (pattern -> path -> bool), arbitrary in every theorem.  `ow` and `gr` are the two
+   structural facts the translator reads from the source (gen/GenClaims.v owner_appends_slash,
+   glob_scans_products): ow = true when _find_owning_static_tree probes path + "/", gr = true
+   when register_nglob tests the regex against every attached product.  The unfixed code is
+   (ow, gr) = (true, false); the fixes of D14 and D3 give (false, true). *)
+From Coq Require Import List NArith Bool String.
 From SV Require Import lib.Bytes lib.Tmpl gen.GenClaims model.Claims proofs.ClaimsProofs.
+Local Notation "x ++ y" := (List.app x y) (right associativity, at level 60) : list_scope.
 Import ListNotations.
 Open Scope N_scope.
 
@@ -12,94 +17,228 @@ Open Scope N_scope.
 
 (* At most one claim (hence one role and one creator) per path. *)
 Theorem C08_claim_unique :
-  forall gm st p cl1 cl2,
-    reachable gm st -> In (p, cl1) (claims st) -> In (p, cl2) (claims st) -> cl1 = cl2.
+  forall gm ow gr st p cl1 cl2,
+    reachable gm ow gr st -> In (p, cl1) (claims st) -> In (p, cl2) (claims st) -> cl1 = cl2.
 Proof. exact claim_unique. Qed.
 
 Theorem C08_claim_keys_nodup :
-  forall gm st, reachable gm st -> NoDup (map fst (claims st)).
-Proof. intros gm st H. exact (inv_uniq _ _ (reachable_inv gm st H)). Qed.
+  forall gm ow gr st, reachable gm ow gr st -> NoDup (map fst (claims st)).
+Proof. intros gm ow gr st H. exact (inv_uniq _ _ _ (reachable_inv gm ow gr st H)). Qed.
 
 (* A static tree exclusively owns every claimed path beneath it. *)
 Theorem C08_tree_owns_everything_under :
-  forall gm st p cl t tc,
-    reachable gm st -> In (p, cl) (claims st) -> In (t, tc) (trees st) -> is_prefix t p = true ->
+  forall gm ow gr st p cl t tc,
+    reachable gm ow gr st -> In (p, cl) (claims st) -> In (t, tc) (trees st) -> is_prefix t p = true ->
     c_role cl = RStatic /\ c_by cl = CTree t.
 Proof. exact tree_owns_everything_under. Qed.
 
 Theorem C08_no_product_under_tree :
-  forall gm st p cl t tc,
-    reachable gm st -> In (p, cl) (claims st) -> In (t, tc) (trees st) -> is_prefix t p = true ->
+  forall gm ow gr st p cl t tc,
+    reachable gm ow gr st -> In (p, cl) (claims st) -> In (t, tc) (trees st) -> is_prefix t p = true ->
     c_role cl <> ROutput /\ c_role cl <> RVolatile.
 Proof. exact no_product_under_tree. Qed.
 
 (* Static trees never nest and each has one creator. *)
 Theorem C08_trees_disjoint :
-  forall gm st t tc t' tc',
-    reachable gm st -> In (t, tc) (trees st) -> In (t', tc') (trees st) -> is_prefix t t' = true ->
+  forall gm ow gr st t tc t' tc',
+    reachable gm ow gr st -> In (t, tc) (trees st) -> In (t', tc') (trees st) -> is_prefix t t' = true ->
     t = t' /\ tc = tc'.
 Proof. exact trees_disjoint. Qed.
 
 (* The glob clause, as far as it holds: a RECORDED match of a registered pattern is never a
    build product, whichever of the two was declared first. *)
 Theorem C08_recorded_match_never_product :
-  forall gm st g m cl,
-    reachable gm st -> In g (globs st) -> In m (g_ms g) -> In (m, cl) (claims st) ->
+  forall gm ow gr st g m cl,
+    reachable gm ow gr st -> In g (globs st) -> In m (g_ms g) -> In (m, cl) (claims st) ->
     c_role cl = RStatic.
 Proof. exact recorded_match_never_product. Qed.
 
-(* The full glob clause ("a pattern never MATCHES a path that a step builds") is false of the
-   faithful model: register_nglob only looks at the recorded matches (defect D3). *)
-Definition C08_glob_clause_full : Prop :=
-  forall gm st g p cl,
-    reachable gm st -> In g (globs st) -> In (p, cl) (claims st) -> gm (g_pat g) p = true ->
+(* The full glob clause ("a pattern never MATCHES a path that a step builds") holds as soon as
+   register_nglob tests the regex against the attached products (gr = true, the fix of D3) ... *)
+Theorem C08_glob_never_matches_product_when_scanned :
+  forall gm ow st g p cl,
+    reachable gm ow true st -> In g (globs st) -> In (p, cl) (claims st) -> gm (g_pat g) p = true ->
+    c_role cl = RStatic.
+Proof.
+  intros gm ow st g p cl H. exact (inv_gfull _ _ _ (reachable_inv gm ow true st H) eq_refl g p cl).
+Qed.
+
+(* ... and is false of the model of the unfixed code (gr = false): register_nglob only looks at
+   the recorded matches (defect D3). *)
+Definition C08_glob_clause_full (gm : str -> str -> bool) (ow gr : bool) : Prop :=
+  forall st g p cl,
+    reachable gm ow gr st -> In g (globs st) -> In (p, cl) (claims st) -> gm (g_pat g) p = true ->
     c_role cl = RStatic.
 
 Theorem C08_glob_never_matches_product_refuted :
-  exists st g p cl, reachable w_gm st /\ In g (globs st) /\ In (p, cl) (claims st) /\
+  exists st g p cl, reachable w_gm true false st /\ In g (globs st) /\ In (p, cl) (claims st) /\
                     c_role cl = ROutput /\ w_gm (g_pat g) p = true.
 Proof. exact glob_never_matches_product_refuted. Qed.
 
-(* ---- 3. either order: refuted pairs ------------------------------------------------------- *)
+(* ---- 2. repeating a declaration by the same creator in the same role is a no-op ------------ *)
+
+(* For every request that declares paths (static files, a static tree, amended outputs and
+   volatile outputs): once accepted, issuing it again is accepted and leaves the state as it is. *)
+Theorem C08_same_creator_redeclare_noop :
+  forall gm ow gr st r st',
+    Inv gm gr st -> is_declaration r = true -> step gm ow gr st r = Ok st' ->
+    step gm ow gr st' r = Ok st'.
+Proof. exact same_creator_redeclare_noop. Qed.
+
+(* ---- 3. either order: refuted pairs (model of the unfixed code, ow = true, gr = false) ------------------------------------------------------- *)
 
 (* D3: glob pattern first, then a step output it matches: rejected; the reverse order: accepted. *)
 Theorem C08_glob_vs_planned_output_refuted :
   let r1 := RqGlob w_B w_pat [] in
   let r2 := RqAmend w_A [] [w_atxt] [] in
-  reachable w_gm w_boot /\
-  accepted (step w_gm w_boot r1) = true /\ accepted (step w_gm w_boot r2) = true /\
-  accepted (run w_gm w_boot [r1; r2]) = false /\ accepted (run w_gm w_boot [r2; r1]) = true.
+  reachable w_gm true false w_boot /\
+  accepted (step w_gm true false w_boot r1) = true /\ accepted (step w_gm true false w_boot r2) = true /\
+  accepted (run w_gm true false w_boot [r1; r2]) = false /\ accepted (run w_gm true false w_boot [r2; r1]) = true.
 Proof. exact glob_vs_planned_output_refuted. Qed.
 
-(* D11: static tree d/ first, then an output (or another step's static file) with path d:
+(* D14: static tree d/ first, then an output (or another step's static file) with path d:
    rejected; the reverse order: accepted (the owner lookup tests path + "/", the prefix scan of
    register_static_tree tests the label itself). *)
 Theorem C08_tree_vs_file_at_tree_path_refuted :
   let r1 := RqTree (CStep w_B) w_d in
   let r2 := RqAmend w_A [] [w_d] [] in
-  reachable w_gm w_boot /\
-  accepted (step w_gm w_boot r1) = true /\ accepted (step w_gm w_boot r2) = true /\
-  accepted (run w_gm w_boot [r1; r2]) = false /\ accepted (run w_gm w_boot [r2; r1]) = true.
+  reachable w_gm true false w_boot /\
+  accepted (step w_gm true false w_boot r1) = true /\ accepted (step w_gm true false w_boot r2) = true /\
+  accepted (run w_gm true false w_boot [r1; r2]) = false /\ accepted (run w_gm true false w_boot [r2; r1]) = true.
 Proof. exact tree_vs_file_at_tree_path_refuted. Qed.
 
 Theorem C08_tree_vs_static_at_tree_path_refuted :
   let r1 := RqTree (CStep w_B) w_d in
   let r2 := RqStatic (CStep w_A) [w_d] in
-  accepted (step w_gm w_boot r1) = true /\ accepted (step w_gm w_boot r2) = true /\
-  accepted (run w_gm w_boot [r1; r2]) = false /\ accepted (run w_gm w_boot [r2; r1]) = true.
+  accepted (step w_gm true false w_boot r1) = true /\ accepted (step w_gm true false w_boot r2) = true /\
+  accepted (run w_gm true false w_boot [r1; r2]) = false /\ accepted (run w_gm true false w_boot [r2; r1]) = true.
 Proof. exact tree_vs_static_at_tree_path_refuted. Qed.
 
 Theorem C08_owner_lookup_invariant_refuted :
-  exists st p cl t tc, reachable w_gm st /\ In (p, cl) (claims st) /\ In (t, tc) (trees st) /\
+  exists st p cl t tc, reachable w_gm true false st /\ In (p, cl) (claims st) /\ In (t, tc) (trees st) /\
                        is_prefix t (with_slash p) = true /\ c_role cl = ROutput.
 Proof. exact owner_lookup_invariant_refuted. Qed.
 
+(* ---- 3. either order: what is proved ------------------------------------------------------- *)
+
+(* The full statement (kept for the record; proved only in the parts below and refuted for the
+   unfixed code by the two witnesses above): two requests of different creators, each acceptable
+   on its own after a state satisfying the invariant, are accepted in both orders or in neither,
+   and when accepted the two final states are equal up to the order of the tables. *)
+Definition C08_commute_full (gm : str -> str -> bool) (ow gr : bool) : Prop :=
+  forall st r1 r2,
+    Inv gm gr st -> req_creator r1 <> req_creator r2 ->
+    accepted (step gm ow gr st r1) = true -> accepted (step gm ow gr st r2) = true ->
+    accepted (run gm ow gr st [r1; r2]) = accepted (run gm ow gr st [r2; r1]) /\
+    (forall s1 s2, run gm ow gr st [r1; r2] = Ok s1 -> run gm ow gr st [r2; r1] = Ok s2 ->
+                   state_equiv s1 s2).
+
+(* File versus file (static / output / volatile by steps or StepUp itself) on an unclaimed path:
+   whichever declaration is made first, the other one is rejected by _check_declaration, with
+   the same structured message. *)
+Theorem C08_file_file_either_order_partial :
+  forall st p r1 c1 r2 c2 d1 d2,
+    lookup p (claims st) = None ->
+    decl_of_node r1 c1 = Ok d1 -> decl_of_node r2 c2 = Ok d2 ->
+    role_eqb r1 r2 && creator_eqb c1 c2 = false ->
+    exists m,
+      check_decl (set_claim st p (mkClaim r1 c1)) (WNode c2) p r2 = Err m /\
+      check_decl (set_claim st p (mkClaim r2 c2)) (WNode c1) p r1 = Err m.
+Proof. exact file_file_either_order. Qed.
+
+(* The two code paths of the tree rule (owner lookup versus prefix scan) are the same test when
+   the probe is the path itself, and differ for the probe path + "/" on exactly one spelling:
+   the file named like the tree (D14). *)
+Theorem C08_owner_lookup_vs_scan :
+  forall d p,
+    is_prefix d (probe false p) = is_prefix d p /\
+    (is_prefix d (probe true p) = true -> is_prefix d p = false -> d = p ++ [SLASH]).
+Proof. exact owner_lookup_vs_scan. Qed.
+
+(* Tree versus build product, decision level (probe = path): tree first, the owner lookup of
+   _declare_file finds the tree for p exactly when, product first, the scan of
+   register_static_tree finds p as an offending label. *)
+Theorem C08_tree_product_either_order_partial :
+  forall (d p : str) (c : creator) (cl : claim) trees0,
+    c_role cl <> RStatic ->
+    let st_tree := mkState [] [] ((d, c) :: trees0) [] [] in
+    (forall t, In t (map fst trees0) -> is_prefix t p = false) ->
+    (is_prefix d p = true -> find_owner false st_tree p = Ok (Some (d, c))) /\
+    (is_prefix d p = false -> find_owner false st_tree p = Ok None) /\
+    (is_prefix d p = true ->
+       min_entry (filter (offending c) (filter (fun pc => is_prefix d (fst pc)) [(p, cl)])) = Some (p, cl)) /\
+    (is_prefix d p = false ->
+       min_entry (filter (offending c) (filter (fun pc => is_prefix d (fst pc)) [(p, cl)])) = None).
+Proof. exact tree_product_either_order. Qed.
+
+(* Glob versus build product, decision level, once register_nglob scans the products: both
+   sites decide by `gm pat p` and raise the same structured message. *)
+Theorem C08_glob_product_either_order_partial :
+  forall gm (s pat lbl p : str) (ms : list str) (cl : claim),
+    c_role cl <> RStatic -> c_by cl = CStep lbl ->
+    glob_check gm [mkGlob s pat ms] lbl [p] =
+      (if gm pat p then Err (MGlobProduct pat s p lbl) else Ok tt) /\
+    (match min_entry (filter (fun pc : str * claim =>
+                                negb (role_eqb (c_role (snd pc)) RStatic) && gm pat (fst pc)) [(p, cl)]) with
+     | Some (q, cl') => Err (MGlobProduct pat s q (creator_label (c_by cl')))
+     | None => Ok tt
+     end) = (if gm pat p then Err (MGlobProduct pat s p lbl) else Ok tt).
+Proof. exact glob_product_either_order. Qed.
+
+(* ---- 4. the messages do not depend on the order -------------------------------------------- *)
+
+(* _file_collision_message(path, a, b) = _file_collision_message(path, b, a) for ALL a, b. *)
+Theorem C08_file_collision_sym :
+  forall p a b, file_collision p a b = file_collision p b a.
+Proof. exact file_collision_sym. Qed.
+
+(* _claim_collision_message: declaration 2 meeting claim 1 and declaration 1 meeting claim 2
+   give the same structured message ... *)
+Theorem C08_collision_message_symmetric :
+  forall p r1 c1 r2 c2 d1 d2,
+    decl_of_node r1 c1 = Ok d1 -> decl_of_node r2 c2 = Ok d2 ->
+    claim_collision p (mkClaim r1 c1) d2 = claim_collision p (mkClaim r2 c2) d1.
+Proof. exact collision_message_symmetric. Qed.
+
+(* ... and hence the same text (templates, verbs and hints regenerated from workflow.py). *)
+Theorem C08_collision_text_symmetric :
+  forall p r1 c1 r2 c2 d1 d2,
+    decl_of_node r1 c1 = Ok d1 -> decl_of_node r2 c2 = Ok d2 ->
+    render (claim_collision p (mkClaim r1 c1) d2) = render (claim_collision p (mkClaim r2 c2) d1).
+Proof. exact collision_text_symmetric. Qed.
+
+Theorem C08_dup_messages_symmetric :
+  forall t a b,
+    (let (c1, c2) := sort2_str a b in MDupTree t c1 c2) = (let (c1, c2) := sort2_str b a in MDupTree t c1 c2) /\
+    (let (c1, c2) := sort2_str a b in MDupStep t c1 c2) = (let (c1, c2) := sort2_str b a in MDupStep t c1 c2).
+Proof. exact dup_messages_symmetric. Qed.
+
+(* ---- tables generated from enums.py -------------------------------------------------------- *)
+
+Theorem C08_role_values_distinct : forall a b, role_val a = role_val b -> a = b.
+Proof. exact role_val_inj. Qed.
+
+Theorem C08_role_tables_consistent :
+  forallb (fun r => assoc_n (declared_state_val r) role_by_state 0 =? role_val r) all_roles = true /\
+  forallb (fun sr => existsb (fun rs => (fst rs =? snd sr) && existsb (N.eqb (fst sr)) (snd rs))
+                             states_by_role) role_by_state = true /\
+  forallb (fun rs => forallb (fun s => assoc_n s role_by_state 0 =? fst rs) (snd rs)) states_by_role = true /\
+  forallb (fun s => existsb (N.eqb s) declarable_states) (map declared_state_val all_roles) = true.
+Proof. exact role_tables_consistent. Qed.
+
+(* A concrete collision text, as the code prints it. *)
+Example C08_message_example :
+  render (file_collision (s2l "p.txt") (mkDecl ROutput (phrase_step (s2l "bbb")) true)
+                                       (mkDecl RStatic (phrase_step (s2l "aaa")) true))
+  = s2l "File (p.txt) cannot be both declared static by step (aaa) and built by step (bbb). Drop the static() call, or write the step's output elsewhere.".
+Proof. vm_compute. reflexivity. Qed.
+
 (* Non-vacuity: a reachable state with a tree, a file handed over to it, an output and a glob. *)
 Example C08_example :
-  let st := run_skip w_gm w_boot
+  let st := run_skip w_gm true false w_boot
               [RqStatic (CStep w_A) [w_d ++ [47; 120]]; RqTree (CStep w_A) w_d;
                RqAmend w_B [] [w_atxt] []; RqGlob w_B (w_d ++ [47; 42]) [w_d ++ [47; 120]]] in
   lookup (w_d ++ [47; 120]) (claims st) = Some (mkClaim RStatic (CTree (w_d ++ [47]))) /\
   lookup w_atxt (claims st) = Some (mkClaim ROutput (CStep w_B)) /\
-  trees st = [(w_d ++ [47], CStep w_A)] /\ length (globs st) = 1%nat.
+  trees st = [(w_d ++ [47], CStep w_A)] /\ List.length (globs st) = 1%nat.
 Proof. vm_compute. repeat split; reflexivity. Qed.
